@@ -254,6 +254,33 @@ def check_proofs(prop):
                closed_reports=closed)
     return res
 
+def coqchk(prop, timeout=3000):
+    """thorough tier: re-checks the compiled closure of Properties/<prop>.vo with the independent
+    checker and reads the axioms it reports.  Returns dict(ok, axioms, reason, seconds)."""
+    t0 = time.time()
+    with Lock("coq"):
+        rc, out = sh(["coqchk", "-silent", "-o", "-Q", "theories", "Calamine", "-Q", "gen", "CalamineGen",
+                      "Calamine.Properties." + prop], cwd=COQ, timeout=timeout)
+    res = {"ok": False, "axioms": [], "reason": "", "seconds": round(time.time() - t0, 1),
+           "cmd": "coqchk -silent -o -Q theories Calamine -Q gen CalamineGen Calamine.Properties." + prop}
+    if rc != 0:
+        res["reason"] = "coqchk failed: " + out[-800:]
+        return res
+    m = re.search(r"\* Axioms:(.*?)\n\s*\n\* ", out, re.S)
+    body = m.group(1) if m else ""
+    axioms = [a.strip() for a in body.split("\n") if a.strip() and a.strip() != "<none>"]
+    res["axioms"] = axioms
+    bad = [a for a in axioms if not any(a.endswith(al) or a.endswith(al.split(".")[-1]) for al in ALLOWED_AXIOMS)]
+    for sect in ("type-in-type", "unsafe (co)fixpoints", "positivity is assumed"):
+        m2 = re.search(re.escape(sect) + r":(.*?)(\n\s*\n|$)", out, re.S)
+        if m2 and "<none>" not in m2.group(1):
+            bad.append(sect + ": " + m2.group(1).strip()[:200])
+    if bad:
+        res["reason"] = "coqchk reports assumptions outside the allow-list: " + "; ".join(bad)
+        return res
+    res["ok"] = True
+    return res
+
 # ----------------------------------------------------------------------------- running cases
 
 def _run_exe(exe, lines, timeout, env=None):
